@@ -11,6 +11,7 @@ import (
 	"sort"
 	"strings"
 	"sync"
+	"sync/atomic"
 	"time"
 
 	"github.com/openebs/jiva/backend/remote"
@@ -136,6 +137,10 @@ type cluster struct {
 	pendingFailed  []int    // nodes that failed the last I/O: must be detached once the controller is quiescent
 	internalBefore []string // internal events that were pending when the current external event started
 	lastKeyText    string
+	task           *task
+	stepBefore     controller.VerifView
+	procs          []*agentProc
+	ctlRouter      http.Handler
 	prevCheckpoint string
 }
 
@@ -165,6 +170,7 @@ func setup() {
 		logrus.SetLevel(logrus.ErrorLevel)
 		logrus.StandardLogger().ExitFunc = func(int) { panic(fatalExit{"logrus.Fatal"}) }
 		http.DefaultTransport = transport{}
+		installHooks()
 	})
 }
 
@@ -173,6 +179,14 @@ type transport struct{}
 
 func (transport) RoundTrip(req *http.Request) (*http.Response, error) {
 	cl := curr
+	top := atomic.AddInt32(&reqDepth, 1) == 1
+	defer atomic.AddInt32(&reqDepth, -1)
+	if top && cl.task != nil && cl.task.running && gated(req) {
+		cl.gate(req.Method + " " + gateName(req))
+	}
+	if resp, ok := cl.routeExtra(req); ok {
+		return resp, nil
+	}
 	host := strings.Split(req.URL.Host, ":")[0]
 	var n int
 	if _, err := fmt.Sscanf(host, "10.0.0.%d", &n); err != nil || n < 1 || n > len(cl.nodes) {
@@ -342,7 +356,28 @@ func newCluster(cfg *Cfg, scratch string) *cluster {
 	return cl
 }
 
+func gateName(req *http.Request) string {
+	h := strings.Split(req.URL.Host, ":")
+	who := "replica" + strings.TrimPrefix(h[0], "10.0.0.")
+	if h[0] == ctlHost {
+		who = "controller"
+	} else if len(h) > 1 && h[1] == "9504" {
+		who = "agent" + strings.TrimPrefix(h[0], "10.0.0.")
+	}
+	p := req.URL.Path
+	if i := strings.Index(p, "/replicas/"); i >= 0 && who == "controller" {
+		p = p[:i] + "/replicas/<id>"
+	}
+	if a := req.URL.Query().Get("action"); a != "" {
+		p += "?action=" + a
+	}
+	return who + " " + p
+}
+
 func (cl *cluster) destroy() {
+	if cl.task != nil && !cl.task.done {
+		cl.killTask()
+	}
 	for _, n := range cl.nodes {
 		n.Destroy()
 	}
